@@ -79,14 +79,14 @@ package arvados
 // ptrOK: a pointer computed for the current packing of the file.
 //@ spec macro ptrOK(fn, p) bool = 0 <= p.segmentIdx && p.segmentIdx <= len(fn.segments) && 0 <= p.segmentOff && (p.segmentIdx < len(fn.segments) ==> p.segmentOff <= segment.Len(fn.segments[p.segmentIdx])) && (p.segmentIdx == len(fn.segments) ==> p.segmentOff == 0) && segsum(row(fn.segments), rowoff(fn.segments), p.segmentIdx) + p.segmentOff == p.off
 
-//@ func filenode.seek$1 property C08
+//@ func filenode.seek$1 property C08,C03
 //@   ensures ptr.repacked == fn.repacked && ptr.off == old(ptr.off) && ptr.segmentIdx == old(ptr.segmentIdx) && ptr.segmentOff == old(ptr.segmentOff)
 
 // seek: for a non-negative offset the result is consistent with the current
 // packing: precisely EOF (index len, offset 0) iff off >= size, otherwise a
 // segment index in range, an offset strictly inside that segment, and prefix
 // sum + offset == off.  No index panic for any valid file node.
-//@ func filenode.seek property C08
+//@ func filenode.seek property C08,C03
 //@   requires fnValid(fn)
 //@   requires startPtr.repacked == fn.repacked && startPtr.off >= 0 && startPtr.off < fn.fileinfo.size ==> ptrOK(fn, startPtr)
 //@   ensures ptr.off == startPtr.off
@@ -103,7 +103,7 @@ package arvados
 // the end of the file it returns (0, io.EOF); after reading n > 0 bytes the
 // pointer has advanced by exactly n and is again consistent with the packing
 // (strictly inside a segment, or precisely at EOF).
-//@ func filenode.Read property C08
+//@ func filenode.Read property C08,C03
 //@   requires fnValid(fn)
 //@   requires startPtr.repacked == fn.repacked && startPtr.off >= 0 && startPtr.off < fn.fileinfo.size ==> ptrOK(fn, startPtr)
 //@   ensures startPtr.off < 0 ==> err == ErrNegativeOffset && n == 0
@@ -180,7 +180,7 @@ package arvados
 //@   loop 2: invariant fn == old(fn) && size == old(size) && fn.repacked == old(fn.repacked) + 1 && fn.fileinfo.size <= size && size > old(fn.fileinfo.size)
 
 // ------------------------------- C09/C10: loading a manifest (range mapping)
-//@ func storedSegment.Len property C10 pure
+//@ func storedSegment.Len property C10,C08,C09 pure
 //@   modifies nothing
 //@   ensures result == se.length
 
@@ -275,7 +275,7 @@ package arvados
 // later save once the four are gone); the offset recorded for a segment is
 // where its data starts in the assembled block; the goroutine is marked as the
 // flusher of every segment before it starts.
-//@ func dirnode.commitBlock property C08,C09 safety -bounds,-nil,-makeslice
+//@ func dirnode.commitBlock property C08,C09,C17 safety -bounds,-nil,-makeslice
 //@   ghost held int = 0
 //@   ghost started bool = false
 //@   calls throttle.Acquire#*: set held = held + 1
@@ -290,7 +290,7 @@ package arvados
 // succeeded, with the locator PutB returned, the block size, the segment's
 // offset in the block and its length; the throttle slot is released on every
 // path; in async mode only after re-validating under the file lock.
-//@ func dirnode.commitBlock$1 property C08,C09 safety -bounds
+//@ func dirnode.commitBlock$1 property C08,C09,C17 safety -bounds
 //@   ghost perr error = nil
 //@   ghost loc string = ""
 //@   ghost released bool = false
@@ -339,7 +339,7 @@ package arvados
 // Read through a handle that was not opened for reading fails with
 // ErrWriteOnlyMode and reads nothing; otherwise the inode is read at the
 // handle's own pointer and the pointer it returns is stored back.
-//@ func filehandle.Read property C08
+//@ func filehandle.Read property C08,C03
 //@   ensures !old(f.readable) ==> n == 0 && err == ErrWriteOnlyMode && f.ptr == old(f.ptr)
 //@   calls inode.Read#1: requires old(f.readable) && $0 == p && $1 == f.ptr
 
@@ -395,7 +395,7 @@ package arvados
 // text: a token reaches the hash+size cut (token[33:]) only after matching the
 // locator pattern, which guarantees at least 34 characters.  (Safety
 // obligations only; they are generated automatically.)
-//@ func Collection.SizedDigests property C10
+//@ func Collection.SizedDigests property C10,C05,C06
 
 // filenode.Write is deliberately NOT under contract: the contracts above
 // observe segment lengths through the state-independent function segment.Len
@@ -514,7 +514,7 @@ package arvados
 //@   modifies all
 //@ func manifestEscape trusted pure
 //@   modifies nothing
-//@ func dirnode.marshalManifest$2 property C09,C10 safety -bounds,-nil,-nopanic
+//@ func dirnode.marshalManifest$2 property C09,C10,C17 safety -bounds,-nil,-nopanic
 //@   # every file of the directory gets a file token: once a file has been
 //@   # processed, the last file part carries its name (a file made only of
 //@   # zero-length segments included)
